@@ -213,6 +213,11 @@ func runC18(rc *RC) {
 				if c == nil || c.reqSeen {
 					continue
 				}
+				if (c.kind == "leave") != (typ == "unavailable") {
+					// the request of an earlier call that returned before its request was read (a join satisfied by the late
+					// answer to the join before it): it is not the pending call's request, and its id is not that call's id
+					continue
+				}
 				c.reqSeen = true
 				rc.Spawn("room-answer", func() {
 					if c.delay > 0 {
